@@ -4,6 +4,7 @@ import (
 	"fmt"
 	"go/token"
 	"go/types"
+	"sort"
 	"strings"
 
 	"calcsa/absint"
@@ -59,8 +60,10 @@ func nrules(p *load.Program, f *fsm, s *oblig.Set) {
 
 	o := &absint.Oracle{}
 	paths := 0
+	var extraFields []string
 	for {
 		paths++
+		extraFields = extraFields[:0]
 		in := absint.NewInterp(p.SSA, o)
 		in.MaxStep = 5000 // one trip through the scanning loop is a few hundred steps
 		F := absint.NewVarRange("F", intT, absint.I64(0), nil)
@@ -81,6 +84,18 @@ func nrules(p *load.Program, f *fsm, s *oblig.Set) {
 			tkf[i] = absint.NewVar("TOK0."+tst.Field(i).Name(), tst.Field(i).Type())
 		}
 		lf[fld["Token"]] = &absint.Struct{T: tokT, F: tkf}
+		// any further state the scanner keeps is unknown: what it emits for a text
+		// must not depend on it
+		for i := 0; i < lst.NumFields(); i++ {
+			switch lst.Field(i).Name() {
+			case "input", "from", "to", "state", "eof", "Err", "Token", "rdr":
+			default:
+				if b, ok := lst.Field(i).Type().Underlying().(*types.Basic); ok {
+					lf[i] = absint.NewVar("LEX."+lst.Field(i).Name(), b)
+					extraFields = append(extraFields, lst.Field(i).Name())
+				}
+			}
+		}
 		cell := in.NewCell(&absint.Struct{T: lexT, F: lf}, "lexer")
 		recv := &absint.Ptr{Cell: cell}
 
@@ -191,6 +206,34 @@ func nrules(p *load.Program, f *fsm, s *oblig.Set) {
 	}
 	desc := func(oc outcome) string {
 		return strings.Join(oc.conds, "; ")
+	}
+	// N10: the token stream is a function of the text and the scan state the
+	// rules model (position, state function, end flag): the scanner keeps no
+	// further state that decides what it emits
+	{
+		var dep []string
+		for _, oc := range outs {
+			for _, c := range oc.conds {
+				if strings.Contains(c, "LEX.") {
+					dep = append(dep, c)
+				}
+			}
+			if oc.lex != nil {
+				for i := 0; i < lst.NumFields(); i++ {
+					_, isBasic := lst.Field(i).Type().Underlying().(*types.Basic)
+					if v := absint.Key(oc.lex.F[i]); isBasic && isExtraLexField(lst.Field(i).Name()) && v != "LEX."+lst.Field(i).Name() {
+						dep = append(dep, "field "+lst.Field(i).Name()+" := "+v)
+					}
+				}
+			}
+		}
+		key := "lexer.(*Lexer).Next / no scanner state beyond position, state function and end flag"
+		if len(dep) == 0 {
+			s.OK("N10", key, pos, "no decision of the scanning loop depends on any other field, none is written")
+		} else {
+			sort.Strings(dep)
+			s.Bad("N10", key, pos, "the scanning loop consults or updates state of its own ("+dep[0]+"): which tokens a piece of text gives then depends on what was scanned before it (a line break inside brackets, after a comment, ...), not on the text", dep...)
+		}
 	}
 	nIter, nEmit, nAdv, nPlain, nTail := 0, 0, 0, 0, 0
 	for _, oc := range outs {
@@ -490,4 +533,12 @@ func tokenRecordRule(p *load.Program, s *oblig.Set) {
 	} else {
 		s.Bad("N9", key, pos, fmt.Sprintf("WithFromTo(kind, text, from, to).From() is %s and .To() is %s: error carets and anything else that locates a token read these bounds; they must be the measured ones (a bound computed from the text is wrong whenever the text is not the source text, as for string literals with escapes)", absint.Key(f), absint.Key(t)))
 	}
+}
+
+func isExtraLexField(n string) bool {
+	switch n {
+	case "input", "from", "to", "state", "eof", "Err", "Token", "rdr":
+		return false
+	}
+	return true
 }
